@@ -190,7 +190,16 @@ HandleVerdict(post, children) ==
     \cup V(det => waitsAfterMark = 0 /\ \A i \in 1..Len(afterDrop) : afterDrop[i][2] # "gone", "C12_detached_never_reaps")
     \cup V(res.ok, "C12_handle_call_failed")
 
+\* ---------------------------------------------------------------- two threads launching at the same time (C08)
+RaceVerdict(post, children) ==
+    V(\A i \in 1..Len(stages) : NoLeakStage(stages[i]), "C08_no_pipe_end_leaks")
+    \cup V(~(Hung /\ HangExplained), "C08_eof_not_propagated")
+    \cup V(res.ok /\ Len(stages) = 2, "C08_launch_failed")
+    \cup V(children = "none", "C12_reaped")
+
 Verdict(post, children) ==
-  IF kind = "pipeline" THEN PipelineVerdict(Tab(post), children) ELSE HandleVerdict(Tab(post), children)
+  CASE kind = "pipeline" -> PipelineVerdict(Tab(post), children)
+    [] kind = "race" -> RaceVerdict(Tab(post), children)
+    [] OTHER -> HandleVerdict(Tab(post), children)
 Sanity == IF Hung /\ ~HangExplained THEN {"watchdog_without_explanation"} ELSE {}
 =============================================================================
